@@ -106,6 +106,11 @@ TABLE = {
             'Static: the IBB block counter, the receiver\'s expectation and QXmppIbbDataIq::m_seq have the same unsigned 16-bit type (so both sides wrap at 65536); in ibbDataIqReceived a block is written and the expectation advanced only for a job found by (sender, session id) in transfer state with the expected sequence number, rejected blocks get an error reply; the open handler bounds the block size; the close handler and the SOCKS5 paths delegate the verdict to checkData(); '
             'checkData() cannot reach terminate(NoError) when a size was announced and differs or a hash was announced and differs; writeData counts the bytes the device accepted and hashes the same buffer.',
             'Byte-for-byte equality of delivered and sent content for all sizes and loss patterns, and detection of corruption when the offer carries neither size nor hash, are not decided.', 'DESIGN.md §2 C19'),
+    'C20': ('sort-before-use dataflow with comparator classification (i;octet), exhaustive abstract evaluation of the identity comparator over the 81 orderings of its four keys, separator typestate over all paths of verificationString, one-source and recompute-at-emission call-structure rules',
+            'Static: in verificationString every loop that appends to the hashed string iterates a local copy sorted after its last mutation with a UTF-8 byte-order comparator; features are de-duplicated; multi-values are sorted before join("<"); '
+            'the identity comparator returns the strict lexicographic order on (category, type, xml:lang, name) for all 81 orderings and the hashed identity string uses the same accessors in that order; every piece is terminated by "<" on every path; FORM_TYPE is taken out of the map and hashed first; SHA-1 over UTF-8, presence says sha-1; '
+            'the advertised ver and the disco#info answer both derive from QXmppDiscoveryManager::capabilities() (answer modified only by setQueryNode), ver is only set by addProperCapability, which precedes every emission of the available client presence.',
+            'Equality with an independent XEP-0115 implementation for all inputs (values containing "<", duplicate keys, several forms) and staleness after addExtension() on a live session without a new presence are not decided.', 'DESIGN.md §2 C20'),
 }
 
 NOT_APPLICABLE_REASON = 'check not built yet in this session (see DESIGN.md); listed here until qxverif/rules/<id>.py exists'
